@@ -38,6 +38,10 @@ def cases_andor(tier, seed):
                     args = [others[0]] * 3
                     args[pos] = err
                     yield dict(kind='andor-err', f=f, args=args, pos=pos, other=others[1], err=err)
+        # an error CELL inside a range argument (R1:R3 = TRUE, #DIV/0!, 1 ; S1:S3 = FALSE, #DIV/0!, 0), alone and after other arguments
+        for rng_, first in (('R1:R3', True), ('S1:S3', False)):
+            for lead in ([], ['TRUE'], ['FALSE'], ['1', 'K1']):
+                yield dict(kind='andor-range-err', f=f, args=lead + [rng_], lead=[x in ('TRUE', '1', 'K1') for x in lead], first=first)
     for t, v in [('TRUE', True), ('FALSE', False), ('0', False), ('1', True), ('2', True), ('K9', False), ('K3', True), ('K2', False)]:
         yield dict(kind='not', arg=t, truth=v)
     for err in ('#N/A', '1/0'):
@@ -113,6 +117,14 @@ def oracle(c):
             decided_before = c['pos'] > 0 and ((c['f'] == 'AND' and not c['other']) or (c['f'] == 'OR' and c['other']))
             ok = obs == err or (decided_before and obs == ('bool', c['f'] == 'OR'))
             return ok, (err, 'or the decided value when an earlier argument decides'), obs
+        if k == 'andor-range-err':
+            ev = _evaluator({'Z50': f'={c["f"]}({",".join(c["args"])})', 'R1': True, 'R2': '=1/0', 'R3': 1, 'S1': False, 'S2': '=1/0', 'S3': 0})
+            obs = observe(ev.evaluate('Sheet1!Z50'))
+            seq = list(c['lead']) + [c['first']]           # truth values met before the error cell
+            deciding = (c['f'] == 'OR')
+            decided = any(v == deciding for v in seq)
+            exp = ('bool', deciding) if decided else ('err', '#DIV/0!')
+            return obs == exp, (exp, 'the error cell is the result unless an earlier value decides'), obs
         if k == 'not':
             ev = _evaluator({'Z50': f'=NOT({c["arg"]})'})
             obs = observe(ev.evaluate('Sheet1!Z50'))
